@@ -392,6 +392,17 @@ func (ms *Modules) Process() []error {
 		ToEntry(m).Augment(true)
 		errs = append(errs, ToEntry(m).GetErrors()...)
 	}
+	if len(mods) > 0 {
+		// Augments whose target path runs through an implied case could
+		// only be applied now; give the choices they brought along their
+		// implied cases as well.
+		for _, m := range ms.Modules {
+			ToEntry(m).FixChoice()
+		}
+		for _, m := range ms.SubModules {
+			ToEntry(m).FixChoice()
+		}
+	}
 
 	// Merging an augment moves the errors found in its body to the target
 	// and records name collisions there, so look at all trees again
